@@ -187,7 +187,10 @@ static int do_hash_file(const char *file, EVP_MD_CTX *ctx, bool follow,
 	return -1;
     }
 
-    EVP_DigestUpdate(ctx, file, strlen(file));
+    /* the terminating NUL and the file type are included, to make
+       the hashed byte sequence uniquely decodable */
+    EVP_DigestUpdate(ctx, file, strlen(file) + 1);
+    EVP_DigestUpdate(ctx, &statbuf.st_mode, sizeof(statbuf.st_mode));
     EVP_DigestUpdate(ctx, &statbuf.st_dev, sizeof(statbuf.st_dev));
     EVP_DigestUpdate(ctx, &statbuf.st_ino, sizeof(statbuf.st_ino));
     EVP_DigestUpdate(ctx, &statbuf.st_size, sizeof(statbuf.st_size));
@@ -209,13 +212,19 @@ static int hash_file(const char *file, EVP_MD_CTX *ctx, void *log_ref)
 
 static int hash_value(const char *value, EVP_MD_CTX *ctx)
 {
-    EVP_DigestUpdate(ctx, value, strlen(value));
+    EVP_DigestUpdate(ctx, value, strlen(value) + 1);
 
     return 0;
 }
 
 static int hash_item(const struct item *item, EVP_MD_CTX *ctx, void *log_ref)
 {
+    /* without the item type (and the NUL terminators), different sets
+       of items may produce the same byte sequence, e.g., a
+       certificate moved from the end of one by-value item to the
+       beginning of the next */
+    EVP_DigestUpdate(ctx, &item->type, sizeof(item->type));
+
     switch (item->type) {
     case item_type_none:
 	return 0;
